@@ -659,6 +659,8 @@ func init() {
 	// The hashing and map-to-curve properties rest on exact field arithmetic; their own (msg, DST) / u alphabets
 	// reach a defective operand class of Mul or Square only by brute force over SHA-256, so the field layer - which
 	// their anchors include - is checked as a seam under those properties as well.
+	// the lighter sweep under C12 itself: what the GOARCH=386 cross-build runs in the quick tier
+	Parts["C12lite"] = Part{"C12", c12SeamLight}
 	Parts["C08field"] = Part{"C08", c12SeamFull}
 	Parts["C11field"] = Part{"C11", c12SeamFull}
 	Parts["C12"] = Part{"C12", C12}
